@@ -17,7 +17,7 @@ import itertools
 from collections import OrderedDict
 
 from .core import AnalysisError
-from .absint import (Interp, Obj, ClassVal, AbsRaise, Unsupported, Native, NativeObj, Closure)
+from .absint import (TZ, Interp, Obj, ClassVal, AbsRaise, Unsupported, Native, NativeObj, Closure)
 from .oracles import rfc
 
 TZ_NAMES = set(rfc.TZID_ADMITTING) | {"FREEBUSY"}
@@ -43,6 +43,26 @@ class ParseInterp(Interp):
 
     def _lines(self, args, kwargs):
         return list(args[-1])
+
+    def cached_ids(self):
+        out = set()
+        for c in self.log:
+            if c[0] == "cache" and isinstance(c[1], Obj) and c[1].items is not None and "TZID" in c[1].items:
+                v = c[1].items["TZID"]
+                d = v.attrs.get("decoded") if isinstance(v, Obj) else None
+                out.add(d[2] if isinstance(d, tuple) and d[0] == "decoded" else self._str(v))
+        return out
+
+    def norm_tz(self, tz):
+        """What the decoder gets, as the zone it denotes *now*: a tzinfo object or an id the
+        provider can resolve at this point of the parse; None otherwise."""
+        if isinstance(tz, TZ):
+            return tz.key_
+        if isinstance(tz, Obj) and tz.strval is not None:
+            tz = tz.strval
+        if isinstance(tz, str):
+            return tz.strip("/") if _resolves(tz, self.cached_ids()) else None
+        return tz
 
     def _parts(self, args, kwargs):
         line = args[0]
@@ -74,6 +94,12 @@ class ParseInterp(Interp):
             return Native("for_property", for_property)
         if o.name == "tzp" and name == "cache_timezone_component":
             return Native("cache", lambda i, a, k: self.log.append(("cache", a[0])))
+        if o.name == "tzp" and name == "timezone":
+            # contract: an id the provider knows, or one whose VTIMEZONE was cached before
+            def timezone(i, a, k):
+                tzid = self._str(a[0])
+                return TZ("zone", tzid.strip("/"), self.provider) if _resolves(tzid, self.cached_ids()) else None
+            return Native("tzp.timezone", timezone)
         if o.name == "component_factory":
             # the factory as written: an instance built by interpreting ComponentFactory.__init__
             cf = self.__dict__.get("_cf_instance")
@@ -91,7 +117,7 @@ class ParseInterp(Interp):
                     tz = a[1] if len(a) > 1 else k.get("timezone")
                     if isinstance(val, str) and val.startswith("BAD"):
                         raise AbsRaise("ValueError", "cannot decode")
-                    return ("decoded", o.name, val, tz)
+                    return ("decoded", o.name, val, self.norm_tz(tz))
                 return Native("stub.from_ical", from_ical)
             raise Unsupported(f"stub codec attribute {name}")
         return super().getattr(o, name)
@@ -158,6 +184,8 @@ EXTRA = [
     ("ATTENDEE;CN=A:mailto:x", "ATTENDEE", {"CN": "A"}, "mailto:x", False),
     ("ATTENDEE;ROLE=B:mailto:x", "ATTENDEE", {"ROLE": "B"}, "mailto:x", False),
     ("ORGANIZER;CN=C:mailto:x", "ORGANIZER", {"CN": "C"}, "mailto:x", False),
+    ("dtstart;tzid=Zone:v", "dtstart", {"tzid": "Zone"}, "v", False),
+    ("RDATE;TZID=/Zone:v", "RDATE", {"TZID": "/Zone"}, "v", False),
     ("FREEBUSY:a,BADb", "FREEBUSY", {}, "a,BADb", False),
     ("FREEBUSY:BADa,b", "FREEBUSY", {}, "BADa,b", False),
     ("X-FOO;VALUE=DATE:v", "X-FOO", {"VALUE": "DATE"}, "v", False),
@@ -165,6 +193,14 @@ EXTRA = [
     ("X-FOO;VALUE=DATE:v,w", "X-FOO", {"VALUE": "DATE"}, "v,w", False),
     ("DTSTART;VALUE=DATE,PERIOD:v", "DTSTART", {"VALUE": ["DATE", "PERIOD"]}, "v", False),
 ]
+
+
+KNOWN_TZIDS = {"Z", "Europe/Berlin", "UTC"}     # ids the (modelled) provider knows; others need a VTIMEZONE
+
+
+def _resolves(tzid, cached_ids):
+    t = tzid.strip("/")
+    return t in KNOWN_TZIDS or t in cached_ids or tzid in cached_ids
 
 
 def _pv(v):
@@ -188,6 +224,7 @@ def reference(model, lines, multiple):
     """The parse loop as the property statements describe it."""
     reg = {k: ci for k, (ci, _) in model.component_registry().items()}
     stack, comps, cached = [], [], []
+    cached_ids = set()
     for label, name, params, value, bad in lines:
         if bad:
             top = stack[-1] if stack else None
@@ -211,6 +248,7 @@ def reference(model, lines, multiple):
                 comps.append(c)
             if value.upper() == "VTIMEZONE" and "TZID" in c.items:
                 cached.append(c.name)
+                cached_ids.add(c.items["TZID"][0][0])
         else:
             top = stack[-1] if stack else None
             if top is None:
@@ -221,7 +259,7 @@ def reference(model, lines, multiple):
             tz = None
             pu = {k.upper(): v for k, v in params.items()}
             if "TZID" in pu and uname in TZ_NAMES:
-                tz = pu["TZID"]
+                tz = pu["TZID"].strip("/") if _resolves(pu["TZID"], cached_ids) else None
             if any(v.startswith("BAD") for v in raw):
                 if not top.lenient:
                     return ("raise", "ValueError"), cached
@@ -307,6 +345,10 @@ def explore(ctx, max_len, extra_sequences=True):
              "ORGANIZER;CN=C:mailto:x", "END", "BEGIN:VTODO", "ATTENDEE;ROLE=B:mailto:x", "END", "END"],
             ["BEGIN:VTODO", "COMMENT:", "COMMENT:x", "COMMENT:", "COMMENT:x", "END"],
             ["BEGIN:VTODO", "COMMENT:x", "COMMENT:", "END"],
+            ["BEGIN:VCALENDAR", "BEGIN:VTIMEZONE", "TZID:Zone", "END:VTIMEZONE", "begin:vevent",
+             "dtstart;tzid=Zone:v", "RDATE;TZID=/Zone:v", "END", "END"],
+            ["BEGIN:VCALENDAR", "begin:vevent", "dtstart;tzid=Zone:v", "END", "BEGIN:VTIMEZONE", "TZID:Zone",
+             "END:VTIMEZONE", "begin:vevent", "dtstart;tzid=Zone:v", "dtstart;tzid=Z:v", "END", "END"],
             ["begin:vevent", "SUMMARY:a", "FREEBUSY:a,BADb", "COMMENT:x", "END"],
             ["begin:vevent", "FREEBUSY:BADa,b", "FREEBUSY;TZID=Z:a,b", "END"],
             ["BEGIN:VTODO", "FREEBUSY:a,BADb", "END"],
